@@ -35,6 +35,11 @@ type Options struct {
 	// AllowTick says whether TICK may be offered as a *choice* while threads are enabled
 	// (a forced tick, when nothing is enabled, is always taken). nil = always.
 	AllowTick func(x *Exec, enabled []*Thread) bool
+	// DelayBound switches from preemption bounding (a switch is free when the running thread blocked) to delay
+	// bounding (Emmi, Qadeer, Rakamaric 2011): the default scheduler is deterministic — continue the running
+	// thread, else the enabled thread with the lowest id — and EVERY departure from its choice costs one
+	// deviation. The number of executions within a bound no longer multiplies with the number of blocking points.
+	DelayBound bool
 	// Drain keeps scheduling background threads after the harness threads finished, until nothing is
 	// enabled and no timer fires within the horizon; goroutines still blocked then are reported as a leak.
 	Drain bool
@@ -398,7 +403,7 @@ func (x *Exec) loop() {
 		if tickOffered {
 			n++
 		}
-		p := Point{N: n, Tick: tickOffered, LastEnabled: x.last != nil && en[0] == x.last, Sig: pointSig(en, tickOffered), CostBefore: x.cost}
+		p := Point{N: n, Tick: tickOffered, LastEnabled: (x.last != nil && en[0] == x.last) || x.opts.DelayBound, Sig: pointSig(en, tickOffered), CostBefore: x.cost}
 		i := len(x.Points)
 		choice := 0
 		if i < len(x.prefix) {
